@@ -1260,3 +1260,492 @@ Proof.
   specialize (H w_schemas w_files_constraint "go" w_before bs').
   rewrite H in *; try assumption; discriminate.
 Qed.
+
+(* ================================================================ every rule, under the condition it does not check *)
+Lemma arg_declared_app_l l l' a : arg_declared l a = true -> arg_declared (l ++ l') a = true.
+Proof. unfold arg_declared. rewrite existsb_app. intros ->. reflexivity. Qed.
+Lemma arg_declared_app_r l l' a : arg_declared l' a = true -> arg_declared (l ++ l') a = true.
+Proof. unfold arg_declared. rewrite existsb_app. intros ->. apply orb_true_r. Qed.
+
+Lemma assignment_ok_app_l ss root l l' a : assignment_ok ss root l a = true -> assignment_ok ss root (l ++ l') a = true.
+Proof.
+  unfold assignment_ok. intros H. apply andb_true_iff in H. destruct H as [H1 H2]. rewrite H1. simpl.
+  rewrite forallb_forall in *. intros x Hx. apply arg_declared_app_l. apply H2. exact Hx.
+Qed.
+Lemma assignment_ok_app_r ss root l l' a : assignment_ok ss root l' a = true -> assignment_ok ss root (l ++ l') a = true.
+Proof.
+  unfold assignment_ok. intros H. apply andb_true_iff in H. destruct H as [H1 H2]. rewrite H1. simpl.
+  rewrite forallb_forall in *. intros x Hx. apply arg_declared_app_r. apply H2. exact Hx.
+Qed.
+
+Lemma set_nullable_idem t b : set_nullable (set_nullable t b) b = set_nullable t b.
+Proof. destruct t; reflexivity. Qed.
+
+(* the constructor copy of an argument (never nullable) declares what the argument declares *)
+Lemma arg_declared_nonnull a x : arg_declared [mkArg (a_name a) (set_nullable (a_type a) false)] x = arg_declared [a] x.
+Proof. unfold arg_declared, ty_eqb_nn. simpl. rewrite set_nullable_idem. reflexivity. Qed.
+
+(* promote_options_to_constructor *)
+Lemma promote_options_wt ss root b : forallb (opt_ok ss root) (b_options b) = true -> forall names c c',
+  promote_checked b names = true -> promote_options b names c = Ok c' ->
+  forallb (assignment_ok ss root (ct_args c)) (ct_assignments c) = true ->
+  forallb (assignment_ok ss root (ct_args c')) (ct_assignments c') = true.
+Proof.
+  intros Hopts. induction names as [|n rest IH]; intros c c' Hchk H Hc; simpl in H.
+  - inversion H; subst. exact Hc.
+  - simpl in Hchk. apply andb_true_iff in Hchk. destruct Hchk as [Hn Hrest].
+    destruct (option_by_name b n) as [o|] eqn:Eo; [|apply (IH _ _ Hrest H Hc)].
+    destruct (op_args o) as [|a ar] eqn:Ea; [discriminate|]. destruct (op_assignments o) as [|asg asr] eqn:Eas; [discriminate|].
+    apply (IH _ _ Hrest H). simpl. rewrite forallb_app. apply andb_true_iff. split.
+    + apply forallb_forall. intros x Hx. apply assignment_ok_app_l. rewrite forallb_forall in Hc. apply Hc. exact Hx.
+    + simpl. rewrite andb_true_r. apply assignment_ok_app_r.
+      assert (Hoin : In o (b_options b)) by (unfold option_by_name in Eo; apply find_some in Eo; apply Eo).
+      rewrite forallb_forall in Hopts. specialize (Hopts o Hoin). unfold opt_ok in Hopts. rewrite Eas in Hopts. simpl in Hopts.
+      apply andb_true_iff in Hopts. destruct Hopts as [Hasg _]. unfold assignment_ok in *. apply andb_true_iff in Hasg. destruct Hasg as [Hp _].
+      rewrite Hp. simpl. rewrite (forallb_ext' _ (arg_declared [a])); [exact Hn|]. intros x. apply arg_declared_nonnull.
+Qed.
+
+Lemma promote_rule_wt ss s names bs bs' :
+  (forall b, In b bs -> sel_builder ss s b = true -> promote_checked b names = true) ->
+  consistent_with ss bs -> Forall (bWT ss) bs ->
+  apply_builder_rule ss (BRPromote s names) bs = Ok bs' -> consistent_with ss bs' /\ Forall (bWT ss) bs'.
+Proof.
+  intros Hchk Hc Hw H. cbn [apply_builder_rule] in H. unfold promote_rule in H.
+  set (Q := fun b => bWT ss b /\ locate_object ss (o_selfpkg (b_for b)) (o_selfname (b_for b)) = Some (b_for b)).
+  assert (Hboth : Forall Q bs).
+  { apply Forall_forall. intros b Hb. rewrite Forall_forall in Hw. split; [apply Hw; exact Hb|apply Hc; exact Hb]. }
+  cut (Forall Q bs').
+  { intros Hf. rewrite Forall_forall in Hf. split; [intros b Hb; apply Hf; exact Hb|apply Forall_forall; intros b Hb; apply Hf; exact Hb]. }
+  apply mapM_ok_forall2 in H. apply Forall_forall. intros b' Hb'. destruct (forall2_in_r _ _ _ _ H Hb') as (b & Hb & E).
+  rewrite Forall_forall in Hboth. destruct (Hboth b Hb) as [H1 H2].
+  destruct (sel_builder ss s b) eqn:Es; [|inversion E; subst; split; assumption].
+  destruct (b_factories b); [|discriminate]. destruct (promote_options b names (b_ctor b)) as [c'| | |] eqn:Ep; simpl in E; try discriminate.
+  inversion E; subst. split; [|exact H2]. unfold bWT in *. rewrite WT_unfold in *. simpl.
+  apply andb_true_iff in H1. destruct H1 as [Hc1 Ho1]. rewrite Ho1, andb_true_r.
+  apply (promote_options_wt ss _ b Ho1 names (b_ctor b) c' (Hchk b Hb Es) Ep Hc1).
+Qed.
+
+(* struct_fields_as_options / struct_fields_as_arguments *)
+Lemma with_type_constraints_args arg cs l : with_type_constraints arg cs = Ok l -> forall c, In c l -> ac_arg c = arg.
+Proof.
+  unfold with_type_constraints. intros H c Hc. apply mapM_ok_forall2 in H. destruct (forall2_in_r _ _ _ _ H Hc) as (tc & _ & E).
+  destruct (c_args tc); [discriminate|]. inversion E. reflexivity.
+Qed.
+
+Lemma set_default_nd t d : ty_eqb_nd t (set_default t d) = true.
+Proof. unfold ty_eqb_nd. assert (E : set_default (set_default t d) DNil = set_default t DNil) by (destruct t; reflexivity). rewrite E. apply ty_eqb_refl. Qed.
+
+Lemma field_item_ok ss cur sa dh fs f ft :
+  resolve_total ss cur = TStruct sa dh fs -> field_by_name fs (f_name f) = Some f -> ty_eqb_nd (f_type f) ft = true ->
+  path_ok_go ss cur [mkPathItem (f_name f) None ft None false] = true.
+Proof. intros Hr Hf Ht. cbn [path_ok_go pi_root pi_typehint pi_index pi_type pi_id negb andb]. rewrite Hr, Hf, Ht. reflexivity. Qed.
+
+Lemma path_below_ok ss root prefix it x :
+  path_ok ss root prefix = true -> last_item prefix = Some it -> path_ok_go ss (next_type it) [x] = true ->
+  path_ok ss root (prefix ++ [x]) = true.
+Proof.
+  intros Hp Hl Hx. assert (Hne : prefix <> []) by (intros ->; discriminate).
+  rewrite path_ok_nonempty by (intros E; apply app_eq_nil in E; apply Hne; apply E).
+  rewrite path_ok_nonempty in Hp by exact Hne. apply (path_ok_go_snoc ss x prefix root it Hp Hl Hx).
+Qed.
+
+Lemma first_assignment_ok ss root o first others : opt_ok ss root o = true -> op_assignments o = first :: others ->
+  path_ok ss root (as_path first) = true /\ forallb (assignment_ok ss root (op_args o)) others = true.
+Proof.
+  unfold opt_ok. intros H E. rewrite E in H. simpl in H. apply andb_true_iff in H. destruct H as [H1 H2]. split; [|exact H2].
+  unfold assignment_ok in H1. apply andb_true_iff in H1. destruct H1 as [H1 _]. apply andb_true_iff in H1. apply H1.
+Qed.
+
+Lemma sfa_options_wt ss root explicit o os :
+  sfa_checked ss o -> opt_ok ss root o = true -> struct_fields_as_options_action ss explicit o = Ok os ->
+  forallb (opt_ok ss root) os = true.
+Proof.
+  intros Hchk Hw H. unfold struct_fields_as_options_action in H.
+  destruct (op_args o) as [|a0 rest] eqn:Ea; [inversion H; simpl; rewrite Hw; reflexivity|].
+  destruct (first_arg_struct ss (a_type a0)) as [ | | | |sa dh fs| | | | | | ] eqn:Ef; try (inversion H; simpl; rewrite Hw; reflexivity).
+  destruct (op_assignments o) as [|first others] eqn:Eas; [discriminate|].
+  destruct (first_assignment_ok _ _ _ _ _ Hw Eas) as [Hp _].
+  destruct (last_item (as_path first)) as [it|] eqn:El.
+  2:{ exfalso. unfold path_ok in Hp. destruct (as_path first) as [|x r]; [discriminate|]. clear - El. unfold last_item in El. revert x El.
+      induction r as [|y r IH]; intros x E; [discriminate|apply (IH y E)]. }
+  destruct (Hchk _ _ _ _ _ _ _ _ Ea Ef Eas El) as (Hres & _ & Hpa & Huniq & _).
+  apply mapM_ok_forall2 in H. apply forallb_forall. intros o' Ho'. destruct (forall2_in_r _ _ _ _ H Ho') as (f & Hf & E).
+  apply filter_In in Hf. destruct Hf as [Hf _]. unfold field_option in E.
+  destruct (with_type_constraints _ _) as [cs| | |] eqn:Ec; simpl in E; try discriminate. inversion E; subst.
+  unfold opt_ok, assignment_ok, assignment_args, path_append, path_from_struct_field. simpl.
+  rewrite (path_below_ok ss root (as_path first) it _ Hp El (field_item_ok ss _ sa dh fs f (f_type f) Hres (Huniq f Hf) (ty_eqb_nd_refl _))).
+  rewrite path_args_app, Hpa. cbn [path_args flat_map pi_index app forallb andb]. rewrite arg_declared_head. cbn [andb].
+  rewrite andb_true_r. apply forallb_forall. intros x Hx. apply in_map_iff in Hx. destruct Hx as (c & <- & Hc).
+  rewrite (with_type_constraints_args _ _ _ Ec c Hc). apply arg_declared_head.
+Qed.
+
+Lemma foldM_invariant_in {A B} (f : A -> B -> res A) (P : A -> Prop) l : forall a a',
+  (forall a x a', In x l -> P a -> f a x = Ok a' -> P a') -> foldM f l a = Ok a' -> P a -> P a'.
+Proof.
+  induction l as [|x r IH]; intros a a' Hstep H Hp; simpl in H.
+  - inversion H; subst. exact Hp.
+  - destruct (f a x) as [a1| | |] eqn:E; simpl in H; try discriminate.
+    apply (IH a1 a'); [intros b y b' Hy; apply Hstep; right; exact Hy|exact H|apply (Hstep _ _ _ (or_introl eq_refl) Hp E)].
+Qed.
+
+Lemma sfa_arguments_wt ss root explicit o os :
+  sfa_checked ss o -> opt_ok ss root o = true -> struct_fields_as_arguments_action ss explicit o = Ok os ->
+  forallb (opt_ok ss root) os = true.
+Proof.
+  intros Hchk Hw H. unfold struct_fields_as_arguments_action in H.
+  destruct (op_args o) as [|a0 rest] eqn:Ea; [inversion H; simpl; rewrite Hw; reflexivity|].
+  destruct (first_arg_struct ss (a_type a0)) as [ | | | |sa dh fs| | | | | | ] eqn:Ef; try (inversion H; simpl; rewrite Hw; reflexivity).
+  destruct (op_assignments o) as [|first others] eqn:Eas; [discriminate|].
+  destruct (first_assignment_ok _ _ _ _ _ Hw Eas) as [Hp Hothers].
+  destruct (last_item (as_path first)) as [it|] eqn:El; [|discriminate].
+  destruct (Hchk _ _ _ _ _ _ _ _ Ea Ef Eas El) as (Hres & Hnarr & Hpa & Huniq & Hrest).
+  rewrite Hnarr in H.
+  destruct (foldM _ _ _) as [acc| | |] eqn:Efold; simpl in H; try discriminate. inversion H; subst; clear H.
+  (* invariant of the fold: every assignment built so far is fine with the arguments built so far *)
+  assert (Hinv : forallb (assignment_ok ss root (sa_args acc)) (sa_asgs acc) = true).
+  { eapply (foldM_invariant_in _ (fun acc => forallb (assignment_ok ss root (sa_args acc)) (sa_asgs acc) = true)); [|exact Efold|reflexivity].
+    intros a f a' Hfin Hpre E. apply filter_In in Hfin. destruct Hfin as [Hfin _]. unfold sfa_field in E.
+    set (ft := match alist_find (dmap_entries (op_default o)) (f_name f) with Some d => set_default (f_type f) d | None => f_type f end) in *.
+    assert (Hft : ty_eqb_nd (f_type f) ft = true) by (unfold ft; destruct (alist_find _ _); [apply set_default_nd|apply ty_eqb_nd_refl]).
+    assert (Hpath : path_ok ss root (path_append (as_path first) [mkPathItem (f_name f) None ft None false]) = true)
+      by (apply (path_below_ok ss root (as_path first) it _ Hp El (field_item_ok ss _ sa dh fs f ft Hres (Huniq f Hfin) Hft))).
+    destruct (is_concrete_scalar ft).
+    - inversion E; subst. simpl. rewrite forallb_app, Hpre. simpl. rewrite andb_true_r.
+      unfold assignment_ok, assignment_args, constant_asg. simpl. rewrite Hpath. unfold path_append. rewrite path_args_app, Hpa. reflexivity.
+    - destruct (with_type_constraints _ _) as [cs| | |] eqn:Ec; simpl in E; try discriminate. inversion E; subst. simpl.
+      rewrite forallb_app. apply andb_true_iff. split.
+      + apply forallb_forall. intros x Hx. apply assignment_ok_app_l. rewrite forallb_forall in Hpre. apply Hpre. exact Hx.
+      + simpl. rewrite andb_true_r. apply assignment_ok_app_r.
+        unfold assignment_ok, assignment_args. simpl. rewrite Hpath. unfold path_append. rewrite path_args_app, Hpa.
+        cbn [path_args flat_map pi_index app forallb andb]. rewrite arg_declared_head. cbn [andb].
+        apply forallb_forall. intros x Hx. apply in_map_iff in Hx. destruct Hx as (c & <- & Hc).
+        rewrite (with_type_constraints_args _ _ _ Ec c Hc). apply arg_declared_head. }
+  simpl. rewrite andb_true_r. unfold opt_ok. simpl. destruct rest as [|r1 rr].
+  - exact Hinv.
+  - rewrite forallb_app. apply andb_true_iff. split.
+    + apply forallb_forall. intros x Hx. apply assignment_ok_app_l. rewrite forallb_forall in Hinv. apply Hinv. exact Hx.
+    + apply forallb_forall. intros x Hx. apply assignment_ok_app_r.
+      rewrite forallb_forall in Hothers. specialize (Hothers x Hx). unfold assignment_ok in *.
+      apply andb_true_iff in Hothers. destruct Hothers as [H1 _]. rewrite H1. simpl. apply (Hrest ltac:(discriminate) x Hx).
+Qed.
+
+(* every option action, on an option where its condition holds *)
+Lemma action_cond_wt ss act b o os :
+  action_cond ss act b o -> consistent_with ss [b] -> opt_ok ss (o_type (b_for b)) o = true ->
+  run_action ss act b o = Ok os -> forallb (opt_ok ss (o_type (b_for b))) os = true.
+Proof.
+  intros Hc Hcons Ho H.
+  assert (Hnoop : run_action ss act b o = Ok [o] -> forallb (opt_ok ss (o_type (b_for b))) os = true).
+  { intros E. rewrite E in H. inversion H; subst. simpl. rewrite Ho. reflexivity. }
+  destruct act; simpl in Hc;
+    try (match type of H with run_action _ ?a _ _ = _ => apply (wt_safe_action_result ss a b o os) end; [reflexivity|exact Hcons|exact Ho|exact H]).
+  - (* rename_arguments *) destruct Hc as [E|(a & first & Hs & Hnc)]; [apply Hnoop; exact E|].
+    simpl in H. inversion H; subst. apply (rename_arguments_derived_wt ss _ o a first names Hs Hnc Ho).
+  - (* unfold_boolean *) destruct Hc as [E|(a & first & Hs)]; [apply Hnoop; exact E|].
+    simpl in H. apply (unfold_boolean_derived_wt ss _ o a first _ _ os Hs Ho H).
+  - (* struct_fields_as_arguments *) destruct Hc as [E|Hs]; [apply Hnoop; exact E|]. simpl in H. apply (sfa_arguments_wt ss _ _ o os Hs Ho H).
+  - (* struct_fields_as_options *) destruct Hc as [E|Hs]; [apply Hnoop; exact E|]. simpl in H. apply (sfa_options_wt ss _ _ o os Hs Ho H).
+  - (* array_to_append *) destruct Hc as [E|(a & first & Hs & Hnc)]; [apply Hnoop; exact E|].
+    simpl in H. apply (array_to_append_derived_wt ss _ o a first os Hs Hnc Ho H).
+  - (* map_to_index *) destruct Hc as [E|(a & first & Hs & Hnc)]; [apply Hnoop; exact E|].
+    simpl in H. apply (map_to_index_derived_wt ss _ o a first os Hs Hnc Ho H).
+  - (* disjunction_as_options *) destruct Hc as [E|(-> & a & first & da & d & Hs & Hd)]; [apply Hnoop; exact E|].
+    simpl in H. apply (disjunction_as_options_derived_wt ss _ o a first da d os Hs Hd Ho H).
+  - (* add_assignment *) apply (wt_safe_action_result ss (AAddAssignment a) b o os); [simpl; rewrite Hc; reflexivity|exact Hcons|exact Ho|exact H].
+Qed.
+
+Lemma orule_cond_wt ss r bs bs' :
+  orule_cond ss r bs -> apply_option_rule ss r bs = Ok bs' ->
+  consistent_with ss bs -> Forall (bWT ss) bs -> consistent_with ss bs' /\ Forall (bWT ss) bs'.
+Proof.
+  intros Hcond H Hc Hw. split.
+  - pose proof (apply_option_rule_headers _ _ _ _ H) as Hh. intros b' Hb'.
+    destruct (forall2_in_r _ _ _ _ Hh Hb') as (b & Hb & (Hf & _)). rewrite <- Hf. apply Hc. exact Hb.
+  - unfold apply_option_rule in H. apply mapM_ok_forall2 in H. apply Forall_forall. intros b' Hb'.
+    destruct (forall2_in_r _ _ _ _ H Hb') as (b & Hb & E).
+    destruct (process_options ss r b) as [os'| | |] eqn:Ep; simpl in E; try discriminate. inversion E; subst.
+    rewrite Forall_forall in Hw. pose proof (Hw b Hb) as Hbw. apply bWT_options; [exact Hbw|].
+    unfold process_options in Ep. destruct (mapM _ _) as [outs| | |] eqn:Em; simpl in Ep; try discriminate. inversion Ep; subst.
+    apply mapM_ok_forall2 in Em. apply forallb_forall. intros o' Ho'. apply in_concat in Ho'. destruct Ho' as (out & Hout & Hin).
+    destruct (forall2_in_r _ _ _ _ Em Hout) as (o & Hoin & Eo). unfold option_step in Eo.
+    assert (Hok : opt_ok ss (o_type (b_for b)) o = true) by (pose proof (bWT_options_ok _ _ Hbw) as Hall; rewrite forallb_forall in Hall; apply Hall; exact Hoin).
+    destruct (sel_option (or_sel r) b o) eqn:Es.
+    + assert (Hcb : consistent_with ss [b]) by (intros x [<-|[]]; apply Hc; exact Hb).
+      pose proof (action_cond_wt ss _ b o out (Hcond b o Hb Hoin Es) Hcb Hok Eo) as Hos. rewrite forallb_forall in Hos. apply Hos. exact Hin.
+    + inversion Eo; subst. destruct Hin as [<-|[]]. exact Hok.
+Qed.
+
+(* ---------------------------------------------------------------- compose *)
+Lemma merge_builder_into_wt ss from into under excl ren it :
+  bWT ss into -> bWT ss from ->
+  path_ok ss (o_type (b_for into)) under = true -> path_args under = [] -> last_item under = Some it ->
+  resolve_total ss (next_type it) = resolve_total ss (o_type (b_for from)) ->
+  (forall a, In a (ct_assignments (b_ctor from)) -> dyn_is_nil (as_const a) = false -> assignment_args a = []) ->
+  bWT ss (merge_builder_into from into under excl ren).
+Proof.
+  intros Hd Hsw Hok Hargs Elast Hnext Hconst.
+  unfold bWT in *. rewrite WT_unfold in *. unfold merge_builder_into. simpl.
+  apply andb_true_iff in Hd. destruct Hd as [Hd1 Hd2]. apply andb_true_iff in Hsw. destruct Hsw as [Hs1 Hs2].
+  rewrite !forallb_app, Hd1, Hd2. simpl. apply andb_true_iff. split.
+  - rewrite forallb_map'. apply forallb_forall. intros a Ha. apply filter_In in Ha. destruct Ha as [Ha Hnil].
+    assert (Hnoarg : assignment_args a = []).
+    { apply Hconst; [exact Ha|]. destruct (dyn_is_nil (as_const a)); [discriminate|reflexivity]. }
+    rewrite forallb_forall in Hs1. specialize (Hs1 a Ha).
+    pose proof (prefix_assignment_ok ss (o_type (b_for into)) (o_type (b_for from)) under (ct_args (b_ctor from)) a it Hok Hargs Elast Hnext Hs1) as Hpa.
+    unfold assignment_ok in *. apply andb_true_iff in Hpa. destruct Hpa as [Hpa _]. rewrite Hpa. simpl.
+    unfold assignment_args in *. unfold prefix_path, set_as_path, path_append. simpl. rewrite path_args_app, Hargs. simpl.
+    rewrite Hnoarg. reflexivity.
+  - rewrite (flat_map_if_filter (fun o => item_in_list (op_name o) excl) (merged_option under ren)).
+    rewrite forallb_map'. apply forallb_forall. intros o Ho. apply filter_In in Ho. destruct Ho as [Ho _].
+    rewrite forallb_forall in Hs2. specialize (Hs2 o Ho). unfold opt_ok in *. unfold merged_option. simpl.
+    rewrite forallb_map'. apply forallb_forall. intros a Ha. rewrite forallb_forall in Hs2.
+    apply (prefix_assignment_ok ss _ (o_type (b_for from)) under _ a it Hok Hargs Elast Hnext (Hs2 a Ha)).
+Qed.
+
+Definition with_hint (it : pathitem) (h : ty) : pathitem := mkPathItem (pi_id it) (pi_index it) (pi_type it) (Some h) (pi_root it).
+
+Lemma last_item_snoc q x : last_item (q ++ [x]) = Some x.
+Proof. unfold last_item. rewrite map_app. simpl. apply last_last. Qed.
+
+Lemma last_item_split p it : last_item p = Some it -> exists q, p = q ++ [it].
+Proof.
+  intros H. destruct (exists_last (l := p)) as (q & x & E); [intros ->; discriminate|]. subst p.
+  rewrite last_item_snoc in H. inversion H; subst. exists q. reflexivity.
+Qed.
+
+Lemma set_last_typehint_snoc q it h : set_last_typehint (q ++ [it]) h = q ++ [with_hint it h].
+Proof. unfold set_last_typehint. rewrite rev_app_distr. simpl. rewrite rev_involutive. reflexivity. Qed.
+
+Lemma hinted_item_ok ss cur it h : path_ok_go ss cur [it] = true -> is_any (pi_type it) = true -> path_ok_go ss cur [with_hint it h] = true.
+Proof.
+  cbn [path_ok_go with_hint pi_root pi_typehint pi_index pi_type pi_id]. intros H Ha. rewrite Ha.
+  destruct (negb (pi_root it)); [|discriminate]. cbn [andb] in *.
+  destruct (match pi_typehint it with None => true | Some _ => is_any (pi_type it) end); [|discriminate]. cbn [andb] in *.
+  destruct (pi_index it); destruct (resolve_total ss cur); try discriminate; try (rewrite andb_true_r in *; exact H).
+  destruct (field_by_name fs (pi_id it)); [|discriminate]. rewrite andb_true_r in *. exact H.
+Qed.
+
+Lemma hinted_path ss root p it h :
+  path_ok ss root p = true -> path_args p = [] -> last_item p = Some it -> is_any (pi_type it) = true ->
+  path_ok ss root (set_last_typehint p h) = true /\ path_args (set_last_typehint p h) = [] /\
+  last_item (set_last_typehint p h) = Some (with_hint it h).
+Proof.
+  intros Hp Hpa Hl Ha. destruct (last_item_split _ _ Hl) as (q & ->). rewrite set_last_typehint_snoc.
+  split; [|split; [|apply last_item_snoc]].
+  - rewrite path_ok_nonempty in * by (intros E; apply app_eq_nil in E; destruct E; discriminate).
+    rewrite path_ok_go_app in *. apply andb_true_iff in Hp. destruct Hp as [H1 H2]. rewrite H1. cbn [andb].
+    apply (hinted_item_ok ss _ it h H2 Ha).
+  - rewrite path_args_app in *. apply app_eq_nil in Hpa. destruct Hpa as [-> H2]. simpl. unfold path_args in *. simpl in *. exact H2.
+Qed.
+
+Lemma compose_merge_wt ss all c : consistent_with ss all -> Forall (bWT ss) all ->
+  (forall nb cb under root it, In cb all -> alist_find (yc_map c) (o_name (b_for cb)) = Some under -> make_path all nb under = Ok root -> last_item root = Some it ->
+     is_any (pi_type it) = true /\ is_ref (o_type (b_for cb)) = false /\
+     forall a, In a (ct_assignments (b_ctor cb)) -> dyn_is_nil (as_const a) = false -> assignment_args a = []) ->
+  forall composables nb kept nb' kept',
+    (forall cb, In cb composables -> In cb all) -> (forall k, In k kept -> In k all) ->
+    bWT ss nb -> compose_merge all c nb composables kept = Ok (nb', kept') ->
+    bWT ss nb' /\ b_for nb' = b_for nb /\ (forall k, In k kept' -> In k all).
+Proof.
+  intros Hc Hw Hchk. induction composables as [|cb rest IH]; intros nb kept nb' kept' Hin Hk Hnb H; simpl in H.
+  - inversion H; subst. repeat split; assumption.
+  - assert (Hcb : In cb all) by (apply Hin; left; reflexivity).
+    assert (Hrest : forall x, In x rest -> In x all) by (intros x Hx; apply Hin; right; exact Hx).
+    destruct (alist_find (yc_map c) (o_name (b_for cb))) as [under|] eqn:Em.
+    2:{ apply (IH _ _ _ _ Hrest) in H; [exact H| |exact Hnb]. intros k Hk'. apply in_app_or in Hk'. destruct Hk' as [Hk'|[<-|[]]]; [apply Hk; exact Hk'|exact Hcb]. }
+    destruct (make_path all nb under) as [root| | |] eqn:Ep; simpl in H; try discriminate.
+    destruct (make_path_ok _ _ _ _ _ Hc Ep) as (Hok & Hargs & _ & Hne & _).
+    destruct (last_item root) as [it|] eqn:El.
+    2:{ exfalso. destruct root as [|x r]; [contradiction|]. clear - El. unfold last_item in El. revert x El.
+        induction r as [|y r IHr]; intros x E; [discriminate|apply (IHr y E)]. }
+    destruct (Hchk nb cb under root it Hcb Em Ep El) as (Hany & Hnref & Hconst).
+    set (h := TRef A0 (o_selfpkg (b_for cb)) (o_selfname (b_for cb))) in *.
+    destruct (hinted_path ss _ root it h Hok Hargs El Hany) as (Hok' & Hargs' & El').
+    assert (Hcbw : bWT ss cb) by (rewrite Forall_forall in Hw; apply Hw; exact Hcb).
+    assert (Hnext : resolve_total ss (next_type (with_hint it h)) = resolve_total ss (o_type (b_for cb))).
+    { unfold next_type, with_hint, h. simpl. rewrite (resolve_total_ref ss A0 _ _ (b_for cb) (Hc cb Hcb) Hnref).
+      rewrite resolve_total_nonref by exact Hnref. reflexivity. }
+    pose proof (merge_builder_into_wt ss cb nb (set_last_typehint root h) [] [] _ Hnb Hcbw Hok' Hargs' El' Hnext Hconst) as Hm.
+    apply (IH _ _ _ _ Hrest) in H; [|destruct (yc_preserve c); [intros k Hk'; apply in_app_or in Hk'; destruct Hk' as [Hk'|[<-|[]]]; [apply Hk; exact Hk'|exact Hcb]|exact Hk]|exact Hm].
+    destruct H as (H1 & H2 & H3). repeat split; [exact H1|rewrite H2; reflexivity|exact H3].
+Qed.
+
+Lemma group_add_members k b g x l : In (x, l) (group_add k b g) -> forall y, In y l -> y = b \/ exists l0, In (x, l0) g /\ In y l0.
+Proof.
+  induction g as [|[k' l'] r IH]; simpl.
+  - intros [E|[]] y Hy. inversion E; subst. destruct Hy as [<-|[]]. left. reflexivity.
+  - destruct (String.compare k k').
+    + intros [E|Hin] y Hy.
+      * inversion E; subst. apply in_app_or in Hy. destruct Hy as [Hy|[<-|[]]]; [right; exists l'; split; [left; reflexivity|exact Hy]|left; reflexivity].
+      * right. exists l. split; [right; exact Hin|exact Hy].
+    + intros [E|[E|Hin]] y Hy.
+      * inversion E; subst. destruct Hy as [<-|[]]. left. reflexivity.
+      * inversion E; subst. right. exists l. split; [left; reflexivity|exact Hy].
+      * right. exists l. split; [right; exact Hin|exact Hy].
+    + intros [E|Hin] y Hy.
+      * inversion E; subst. right. exists l. split; [left; reflexivity|exact Hy].
+      * destruct (IH Hin y Hy) as [->|(l0 & Hl0 & Hy0)]; [left; reflexivity|right; exists l0; split; [right; exact Hl0|exact Hy0]].
+Qed.
+
+Lemma groups_members ss s : forall bs g0 x l,
+  In (x, l) (fold_left (fun g b => if sel_builder ss s b then match locate ss (o_selfpkg (b_for b)) with None => g | Some sch => group_add (m_identifier (s_meta sch)) b g end else g) bs g0) ->
+  forall y, In y l -> In y bs \/ exists l0, In (x, l0) g0 /\ In y l0.
+Proof.
+  induction bs as [|b r IH]; intros g0 x l H y Hy; simpl in H.
+  - right. exists l. split; assumption.
+  - destruct (IH _ _ _ H y Hy) as [Hin|(l0 & Hl0 & Hy0)]; [left; right; exact Hin|].
+    destruct (sel_builder ss s b); [|right; exists l0; split; assumption].
+    destruct (locate ss (o_selfpkg (b_for b))); [|right; exists l0; split; assumption].
+    destruct (group_add_members _ _ _ _ _ Hl0 y Hy0) as [->|(l1 & Hl1 & Hy1)]; [left; left; reflexivity|right; exists l1; split; assumption].
+Qed.
+
+Lemma constant_field_ok ss sa dh fs n tf args v : field_by_name fs n = Some tf ->
+  assignment_ok ss (TStruct sa dh fs) args (constant_asg (path_from_struct_field tf) v) = true.
+Proof.
+  intros Hf. unfold assignment_ok, constant_asg, assignment_args, path_from_struct_field, path_ok. cbn [as_path as_value as_constraints].
+  rewrite (field_item_ok ss (TStruct sa dh fs) sa dh fs tf (f_type tf)); [reflexivity|apply resolve_total_nonref; reflexivity| |apply ty_eqb_nd_refl].
+  rewrite (field_by_name_name _ _ _ Hf). exact Hf.
+Qed.
+
+Lemma compose_rule_wt ss s c bs bs' :
+  compose_checked ss c bs -> consistent_with ss bs -> Forall (bWT ss) bs ->
+  apply_builder_rule ss (BRCompose s c) bs = Ok bs' -> consistent_with ss bs' /\ Forall (bWT ss) bs'.
+Proof.
+  intros [Hep Hchk] Hc Hw H. cbn [apply_builder_rule] in H. unfold compose_rule in H.
+  destruct (cut_dot (yc_source c)) as [[spkg sname]|]; [|discriminate].
+  destruct (locate_by_object bs spkg sname) as [source|] eqn:Es; [|inversion H; subst; split; assumption].
+  destruct (mapM _ _) as [composed| | |] eqn:Em; simpl in H; try discriminate. inversion H; subst; clear H.
+  destruct (locate_by_object_some _ _ _ _ Es) as (Hsin & _ & _).
+  set (Q := fun b => bWT ss b /\ locate_object ss (o_selfpkg (b_for b)) (o_selfname (b_for b)) = Some (b_for b)).
+  assert (Hboth : forall b, In b bs -> Q b) by (intros b Hb; rewrite Forall_forall in Hw; split; [apply Hw; exact Hb|apply Hc; exact Hb]).
+  cut (Forall Q (filter (fun b => negb (sel_builder ss s b)) bs ++ List.concat composed)).
+  { intros Hf. rewrite Forall_forall in Hf. split; [intros b Hb; apply Hf; exact Hb|apply Forall_forall; intros b Hb; apply Hf; exact Hb]. }
+  apply Forall_app. split; [apply Forall_forall; intros b Hb; apply filter_In in Hb; apply Hboth; apply Hb|].
+  apply Forall_forall. intros b Hb. apply in_concat in Hb. destruct Hb as (grp & Hgrp & Hbin).
+  apply mapM_ok_forall2 in Em. destruct (forall2_in_r _ _ _ _ Em Hgrp) as ([disc members] & Hg & E). simpl in E.
+  assert (Hmem : forall y, In y members -> In y bs).
+  { intros y Hy. destruct (groups_members ss s bs [] disc members Hg y Hy) as [Hin|(l0 & [] & _)]. exact Hin. }
+  unfold compose_builder_for_type in E. destruct members as [|c0 mrest]; [discriminate|].
+  destruct (o_type (b_for source)) as [ | | | |sa dh fs| | | | | | ] eqn:Et; try discriminate.
+  destruct (field_by_name fs (yc_disc_field c)) as [tf|] eqn:Etf; [|discriminate].
+  match type of E with (do mk <- compose_merge bs c ?NB0 _ _ ; _) = _ => set (nb0 := NB0) in * end.
+  destruct (compose_merge bs c nb0 (c0 :: mrest) []) as [[nb1 kept]| | |] eqn:Ecm; simpl in E; try discriminate.
+  destruct (Hboth source Hsin) as [Hsw Hsc].
+  assert (Hnb0 : bWT ss nb0).
+  { unfold bWT in *. rewrite WT_unfold in *. unfold nb0. simpl. apply andb_true_iff in Hsw. destruct Hsw as [H1 H2].
+    rewrite forallb_app, H1. cbn [forallb andb]. rewrite (forallb_filter_sub _ _ _ H2), !andb_true_r.
+    rewrite Et. apply (constant_field_ok ss sa dh fs (yc_disc_field c) tf _ _ Etf). }
+  destruct (compose_merge_wt ss bs c Hc Hw Hchk (c0 :: mrest) nb0 [] nb1 kept Hmem (fun k (F : In k []) => match F with end) Hnb0 Ecm) as (Hnb1 & Hfor & Hkept).
+  assert (Hq1 : Q nb1) by (split; [exact Hnb1|rewrite Hfor; exact Hsc]).
+  assert (Hres : E = E) by reflexivity. clear Hres.
+  assert (Hout : grp = kept ++ [nb1]).
+  { destruct (alist_find (yc_map c) "__schema_entrypoint") as [ep|]; [subst ep; simpl in E|]; inversion E; reflexivity. }
+  subst grp. apply in_app_or in Hbin. destruct Hbin as [Hb|[<-|[]]]; [apply Hboth; apply Hkept; exact Hb|exact Hq1].
+Qed.
+
+(* ---------------------------------------------------------------- all 22 rules, each applied where its condition holds *)
+Lemma brule_cond_wt ss r bs bs' :
+  brule_cond ss r bs -> apply_builder_rule ss r bs = Ok bs' ->
+  consistent_with ss bs -> Forall (bWT ss) bs -> consistent_with ss bs' /\ Forall (bWT ss) bs'.
+Proof.
+  intros Hcond H Hc Hw. destruct r.
+  - apply (wt_safe_brule_preserves ss (BROmit s) bs bs' eq_refl H Hc Hw).
+  - apply (wt_safe_brule_preserves ss (BRRename s n) bs bs' eq_refl H Hc Hw).
+  - apply (merge_into_rule_wt_proof ss _ _ _ _ _ bs bs' Hcond Hc Hw H).
+  - apply (compose_rule_wt ss _ _ bs bs' Hcond Hc Hw H).
+  - apply (wt_safe_brule_preserves ss (BRProperties s ps) bs bs' eq_refl H Hc Hw).
+  - apply (wt_safe_brule_preserves ss (BRDuplicate s n excl) bs bs' eq_refl H Hc Hw).
+  - apply (wt_safe_brule_preserves ss (BRInitialize s set) bs bs' eq_refl H Hc Hw).
+  - apply (promote_rule_wt ss _ _ bs bs' Hcond Hc Hw H).
+  - apply (wt_safe_brule_preserves ss (BRAddOption s o) bs bs' Hcond H Hc Hw).
+  - apply (wt_safe_brule_preserves ss (BRAddFactory s f) bs bs' eq_refl H Hc Hw).
+Qed.
+
+Lemma builder_rules_checked_wt ss : forall rs bs bs',
+  builder_rules_checked ss rs bs -> apply_builder_rules ss rs bs = Ok bs' ->
+  consistent_with ss bs -> Forall (bWT ss) bs -> consistent_with ss bs' /\ Forall (bWT ss) bs'.
+Proof.
+  induction rs as [|r rest IH]; intros bs bs' Hchk H Hc Hw; simpl in H.
+  - inversion H; subst. split; assumption.
+  - destruct Hchk as [Hr Hrest]. destruct (apply_builder_rule ss r bs) as [bs1| | |] eqn:E; simpl in H; try discriminate.
+    destruct (brule_cond_wt _ _ _ _ Hr E Hc Hw) as [Hc1 Hw1]. apply (IH _ _ (Hrest bs1 eq_refl) H Hc1 Hw1).
+Qed.
+
+Lemma option_rules_checked_wt ss : forall rs bs bs',
+  option_rules_checked ss rs bs -> apply_option_rules_go ss rs bs = Ok bs' ->
+  consistent_with ss bs -> Forall (bWT ss) bs -> consistent_with ss bs' /\ Forall (bWT ss) bs'.
+Proof.
+  induction rs as [|r rest IH]; intros bs bs' Hchk H Hc Hw; simpl in H.
+  - inversion H; subst. split; assumption.
+  - destruct Hchk as [Hr Hrest]. destruct (apply_option_rule ss r bs) as [bs1| | |] eqn:E; simpl in H; try discriminate.
+    destruct (orule_cond_wt _ _ _ _ Hr E Hc Hw) as [Hc1 Hw1]. apply (IH _ _ (Hrest bs1 eq_refl) H Hc1 Hw1).
+Qed.
+
+Lemma language_checked_wt ss lrs l bs bs' :
+  language_checked ss lrs l bs -> apply_language ss lrs l bs = Ok bs' ->
+  consistent_with ss bs -> Forall (bWT ss) bs -> consistent_with ss bs' /\ Forall (bWT ss) bs'.
+Proof.
+  intros [Hb Ho] H Hc Hw. unfold apply_language, apply_option_rules in H.
+  destruct (apply_builder_rules ss (builder_rules_for l lrs) bs) as [bs1| | |] eqn:E1; simpl in H; try discriminate.
+  destruct (builder_rules_checked_wt _ _ _ _ Hb E1 Hc Hw) as [Hc1 Hw1].
+  destruct (apply_option_rules_go ss _ bs1) as [bs2| | |] eqn:E2; simpl in H; try discriminate.
+  destruct (option_rules_checked_wt _ _ _ _ (Ho bs1 eq_refl) E2 Hc1 Hw1) as (Hc2 & Hw2). inversion H; subst. split.
+  - intros b Hb'. apply filter_In in Hb'. apply Hc2. apply Hb'.
+  - rewrite Forall_forall in *. intros b Hb'. apply filter_In in Hb'. apply Hw2. apply Hb'.
+Qed.
+
+Theorem rules_preserve_WT_where_checked_proof ss files lang bs lrs bs' :
+  rewriter_from files = Ok lrs -> run_checked ss lrs lang bs ->
+  consistent_with ss bs -> WTs ss bs = true ->
+  apply_to ss files lang bs = Ok bs' -> WTs ss bs' = true.
+Proof.
+  intros Hl [H1 H2] Hc Hw H. unfold apply_to in H. destruct (negb (aliases_acyclic ss)); [discriminate|]. rewrite Hl in H. simpl in H.
+  unfold apply_to_rules in H. destruct (apply_language ss lrs all_languages bs) as [bs1| | |] eqn:E1; simpl in H; try discriminate.
+  apply bWT_all in Hw. destruct (language_checked_wt _ _ _ _ _ H1 E1 Hc Hw) as (Hc1 & Hw1).
+  destruct (language_checked_wt _ _ _ _ _ (H2 bs1 eq_refl) H Hc1 Hw1) as (_ & Hw2). apply bWT_all. exact Hw2.
+Qed.
+
+(* the safe group needs no condition: wt_safe_rules implies run_checked *)
+Lemma wt_safe_brule_cond ss r bs : wt_safe_brule r = true -> brule_cond ss r bs.
+Proof. destruct r; simpl; try discriminate; auto. Qed.
+Lemma wt_safe_action_cond ss act b o : wt_safe_action act = true -> action_cond ss act b o.
+Proof. destruct act; simpl; try discriminate; auto. destruct (vvalue_args (va_value a)); [reflexivity|discriminate]. Qed.
+
+(* witnesses: each condition dropped *)
+Definition w_files_promote : list vfile :=
+  [mkVFile "all" "alpha" [] [[YOMapToIndex (w_osel "Foo.labels")]];
+   mkVFile "go" "alpha" [[YBPromote (mkYBSel (Some "Foo") None None None) ["labels"]]] []].
+Lemma wt_witness_promote : wt_witness w_files_promote = true.
+Proof. vm_compute. reflexivity. Qed.
+
+(* struct_fields_as_options / _as_arguments on an option that disjunction_as_options produced: the argument is a
+   Bar, the path still ends in the disjunction *)
+Definition w_schemas_sub : schemas :=
+  [mkSchema "alpha" w_meta "" ty_zero
+     [("Foo", mkObject "Foo" [] (TStruct A0 [] [mkField "sub" [] (TDisj A0 (mkDisj [TRef A0 "alpha" "Bar"; w_str] "" [])) false]) "alpha" "Foo");
+      ("Bar", mkObject "Bar" [] (TStruct A0 [] [mkField "id" [] w_str true]) "alpha" "Bar")]].
+Definition w_before_sub : list builder := match from_ast w_schemas_sub with Ok bs => bs | _ => [] end.
+Definition w_files_sfa (as_options : bool) : list vfile :=
+  [mkVFile "all" "alpha" []
+     [[YODisjunctionAsOptions (mkYOSel (Some "Foo.sub") None None) 0];
+      [if as_options then YOStructFieldsAsOptions (mkYOSel (Some "Foo.bar") None None) None
+       else YOStructFieldsAsArguments (mkYOSel (Some "Foo.bar") None None) None]]].
+(* compose into a field that is not an `any` *)
+Definition w_schemas_compose : schemas :=
+  [mkSchema "dash" w_meta "" ty_zero
+     [("Panel", mkObject "Panel" [] (TStruct A0 [] [mkField "type" [] w_str true; mkField "title" [] w_str true]) "dash" "Panel")];
+   mkSchema "ts" {| m_kind := "composable" ; m_variant := "panelcfg" ; m_identifier := "timeseries" |} "" ty_zero
+     [("Options", mkObject "Options" [] (TStruct A0 [] [mkField "legend" [] (TScalar A0 KBool DNil []) true]) "ts" "Options")]].
+Definition w_before_compose : list builder := match from_ast w_schemas_compose with Ok bs => bs | _ => [] end.
+Definition w_files_compose : list vfile :=
+  [mkVFile "all" "dash" [[YBCompose (mkYCompose (mkYBSel None None (Some "panelcfg") None) "dash.Panel" "type" [] [("Options", "title")] "" true)]] []].
+
+Definition wt_witness_on (ss : schemas) (before : list builder) (files : list vfile) : bool :=
+  consistent ss before && WTs ss before && files_wf files &&
+  match apply_to ss files "go" before with Ok bs' => negb (WTs ss bs') | _ => false end.
+Lemma wt_witness_sfa_options : wt_witness_on w_schemas_sub w_before_sub (w_files_sfa true) = true.
+Proof. vm_compute. reflexivity. Qed.
+Lemma wt_witness_sfa_arguments : wt_witness_on w_schemas_sub w_before_sub (w_files_sfa false) = true.
+Proof. vm_compute. reflexivity. Qed.
+Lemma wt_witness_compose : wt_witness_on w_schemas_compose w_before_compose w_files_compose = true.
+Proof. vm_compute. reflexivity. Qed.
